@@ -42,15 +42,17 @@ Definition bytes := list Z.
    fx_rtype 08 ADF_Read_All_Data compares the caller's type with the node's whole type (was: first 2 characters)
    fx_dim   11 ADF_Get_Dimension_Values refuses values >= 2^63
    fx_short 13 ADFI_read_file refuses bytes beyond what the (short) block read obtained, and negative lengths
-   fx_sizes 14 untranslated copy only if the header's type sizes equal the machine's *)
+   fx_sizes 14 untranslated copy only if the header's type sizes equal the machine's
+   fx_rad   15 ADF_Read_All_Data: a data chunk that ends before it starts is ADF_DISK_TAG_ERROR; the zero fill of missing
+               data counts bytes of memory, not of the file *)
 Record fixes := { fx_snt : bool; fx_dct : bool; fx_link : bool; fx_nest : bool; fx_fmt : bool; fx_tag : bool;
-                  fx_dtov : bool; fx_rtype : bool; fx_dim : bool; fx_short : bool; fx_sizes : bool }.
+                  fx_dtov : bool; fx_rtype : bool; fx_dim : bool; fx_short : bool; fx_sizes : bool; fx_rad : bool }.
 Definition legacy : fixes :=
   {| fx_snt := false; fx_dct := false; fx_link := false; fx_nest := false; fx_fmt := false; fx_tag := false;
-     fx_dtov := false; fx_rtype := false; fx_dim := false; fx_short := false; fx_sizes := false |}.
+     fx_dtov := false; fx_rtype := false; fx_dim := false; fx_short := false; fx_sizes := false; fx_rad := false |}.
 Definition repaired : fixes :=
   {| fx_snt := true; fx_dct := true; fx_link := true; fx_nest := true; fx_fmt := true; fx_tag := true;
-     fx_dtov := true; fx_rtype := true; fx_dim := true; fx_short := true; fx_sizes := true |}.
+     fx_dtov := true; fx_rtype := true; fx_dim := true; fx_short := true; fx_sizes := true; fx_rad := true |}.
 
 Inductive out (A : Type) : Type :=
 | Ok (a : A) | Err (code : Z) | OOBW (site : Z) | OOBR (site : Z) | Uninit | Stale | Abort | UB | Ext | OutOfFuel.
